@@ -109,6 +109,7 @@ CANARIES = {
         ("optimiser-unsound", "stix2/datastore/filesystem.py", "str-perturb", ["_find_search_optimizations", "'!='"], "C12.optimiser-table"),
         ("string-in-prunes-directories", "stix2/datastore/filesystem.py", "text", ['        if filter_.op == "in" and isinstance(filter_.value, str):', '        if False:'], "C12.optimiser-table"),
         ("collection-members-not-converted", "stix2/datastore/filters.py", "text", ["stix2.utils.parse_into_datetime(v) if isinstance(v, str) else v", "v"], "C12.timestamp-coercion"),
+        ("path-step-into-plain-value-raises", "stix2/datastore/filters.py", "text", ["    if not isinstance(stix_obj, collections.abc.Mapping):\n", "    if False:\n"], "C12.conjunction"),
     ],
     "C13": [
         ("copy-removed", "stix2/properties.py", "unwrap-copy", ["ExtensionsProperty.clean", "copy.deepcopy"], "C13.no-param-mutation"),
